@@ -1,3 +1,824 @@
-//! C10 — stub, to be implemented.
-use vcore::Ctx;
-pub fn run(_ctx: &mut Ctx) {}
+//! C10 — idle connections close only when truly idle; once idle, they close with KeepAliveTimeout no
+//! earlier than the idle timeout.
+//!
+//! One interpreter, two back-ends, three timing modes.
+//!
+//! Back-ends
+//! * `Direct` — the real `Connection` object (hook `swarm::verif::Conn`) polled by the harness itself,
+//!   over a simulated muxer whose remote side the harness plays (real multistream-select on both ends).
+//! * `World`  — a real `Swarm` in the simulated world (connection task on the harness executor); the
+//!   close is observed as `SwarmEvent::ConnectionClosed { cause }`.
+//!
+//! Modes
+//! * `Asap`  (idle timeout 0, deterministic): after every poll-to-quiescence the connection is closed
+//!   with KeepAliveTimeout **iff** none of the four busy conditions holds.
+//! * `Armed` (idle timeout 1 h, deterministic, Direct only): the connection never closes; the planned
+//!   shutdown read through the hook is `None` whenever a busy condition holds (a timer that survived a
+//!   busy period would fire too early) and `Later` when idle.
+//! * `Timed` (idle timeout 25 ms, wall clock, one-sided): a close implies no busy condition and at
+//!   least the timeout elapsed since the harness timestamp taken *before* the poll in which the
+//!   connection could first have seen itself idle (jitter can only lengthen the measured time); a busy
+//!   connection survives a wait longer than the timeout; a missed deadline is Inconclusive, never a
+//!   violation.
+//!
+//! The harness model of "busy" is built only from what the harness itself did or saw (handler
+//! callbacks, muxer counters, its own commands) and is evaluated where the connection evaluates it:
+//! at the end of a poll. A keep-alive flag that was raised and lowered again without the connection
+//! being polled in between was never "asked" of the connection and is not counted.
+use futures::task::{waker, ArcWake};
+use libp2p_core::transport::PortUse;
+use libp2p_core::upgrade::ReadyUpgrade;
+use libp2p_core::{Endpoint, Multiaddr};
+use libp2p_identity::PeerId;
+use libp2p_swarm::dial_opts::DialOpts;
+use libp2p_swarm::handler::ConnectionEvent;
+use libp2p_swarm::verif::{Conn, ConnPoll, ShutdownView};
+use libp2p_swarm::{
+    ConnectionDenied, ConnectionError, ConnectionHandler, ConnectionHandlerEvent, ConnectionId, FromSwarm, NetworkBehaviour, Stream, StreamProtocol, SubstreamProtocol, THandlerInEvent,
+    THandlerOutEvent, ToSwarm,
+};
+use multiaddr::Protocol;
+use multistream_select::{dialer_select_proto, listener_select_proto, Version};
+use proptest::prelude::*;
+use serde::{Deserialize, Serialize};
+use serde_json::json;
+use simswarm::net::{boxed, mux_pair, MuxCtl, SimMuxer};
+use simswarm::world::{release_phantoms, Ev, World};
+use std::convert::Infallible;
+use std::future::Future;
+use std::pin::Pin;
+use std::sync::atomic::{AtomicBool, Ordering};
+use std::sync::{Arc, Mutex};
+use std::task::{Context, Poll, Waker};
+use std::time::{Duration, Instant};
+use vcore::simio::Duplex;
+use vcore::{gen, Ctx, Outcome};
+
+const PROTO: StreamProtocol = StreamProtocol::new("/c10/1");
+const HOUR: Duration = Duration::from_secs(3600);
+const TIMED: Duration = Duration::from_millis(25);
+const MAX_REMOTE_OPEN: u32 = 6;
+
+// ---------------------------------------------------------------------------------------------
+// handler + behaviour (state shared with the harness)
+
+struct Held {
+    s: Stream,
+    ignored: bool,
+}
+
+#[derive(Default)]
+struct Shared {
+    keep_alive: bool,
+    want_open: u32,
+    streams: Vec<Held>,
+    waker: Option<Waker>,
+    requested: u32,
+    out_ok: u32,
+    out_err: u32,
+    in_ok: u32,
+    in_err: u32,
+}
+
+type Sh = Arc<Mutex<Shared>>;
+
+struct H10 {
+    sh: Sh,
+}
+
+impl ConnectionHandler for H10 {
+    type FromBehaviour = Infallible;
+    type ToBehaviour = Infallible;
+    type InboundProtocol = ReadyUpgrade<StreamProtocol>;
+    type OutboundProtocol = ReadyUpgrade<StreamProtocol>;
+    type InboundOpenInfo = ();
+    type OutboundOpenInfo = ();
+
+    fn listen_protocol(&self) -> SubstreamProtocol<Self::InboundProtocol, ()> {
+        SubstreamProtocol::new(ReadyUpgrade::new(PROTO), ()).with_timeout(HOUR)
+    }
+
+    fn connection_keep_alive(&self) -> bool {
+        self.sh.lock().unwrap().keep_alive
+    }
+
+    fn poll(&mut self, cx: &mut Context<'_>) -> Poll<ConnectionHandlerEvent<Self::OutboundProtocol, (), Infallible>> {
+        let mut g = self.sh.lock().unwrap();
+        if g.want_open > 0 {
+            g.want_open -= 1;
+            g.requested += 1;
+            return Poll::Ready(ConnectionHandlerEvent::OutboundSubstreamRequest { protocol: SubstreamProtocol::new(ReadyUpgrade::new(PROTO), ()).with_timeout(HOUR) });
+        }
+        g.waker = Some(cx.waker().clone());
+        Poll::Pending
+    }
+
+    fn on_behaviour_event(&mut self, ev: Infallible) {
+        match ev {}
+    }
+
+    fn on_connection_event(&mut self, event: ConnectionEvent<Self::InboundProtocol, Self::OutboundProtocol, (), ()>) {
+        let mut g = self.sh.lock().unwrap();
+        match event {
+            ConnectionEvent::FullyNegotiatedInbound(f) => {
+                g.streams.push(Held { s: f.protocol, ignored: false });
+                g.in_ok += 1;
+            }
+            ConnectionEvent::FullyNegotiatedOutbound(f) => {
+                g.streams.push(Held { s: f.protocol, ignored: false });
+                g.out_ok += 1;
+            }
+            ConnectionEvent::DialUpgradeError(_) => g.out_err += 1,
+            ConnectionEvent::ListenUpgradeError(_) => g.in_err += 1,
+            _ => {}
+        }
+    }
+}
+
+struct B10 {
+    sh: Sh,
+}
+
+impl NetworkBehaviour for B10 {
+    type ConnectionHandler = H10;
+    type ToSwarm = Infallible;
+
+    fn handle_established_inbound_connection(&mut self, _: ConnectionId, _: PeerId, _: &Multiaddr, _: &Multiaddr) -> Result<H10, ConnectionDenied> {
+        Ok(H10 { sh: self.sh.clone() })
+    }
+    fn handle_established_outbound_connection(&mut self, _: ConnectionId, _: PeerId, _: &Multiaddr, _: Endpoint, _: PortUse) -> Result<H10, ConnectionDenied> {
+        Ok(H10 { sh: self.sh.clone() })
+    }
+    fn on_swarm_event(&mut self, _: FromSwarm) {}
+    fn on_connection_handler_event(&mut self, _: PeerId, _: ConnectionId, ev: THandlerOutEvent<Self>) {
+        match ev {}
+    }
+    fn poll(&mut self, _: &mut Context<'_>) -> Poll<ToSwarm<Self::ToSwarm, THandlerInEvent<Self>>> {
+        Poll::Pending
+    }
+}
+
+// ---------------------------------------------------------------------------------------------
+// case
+
+#[derive(Clone, Debug, Serialize, Deserialize, PartialEq, Eq)]
+pub enum Op {
+    /// the handler's `connection_keep_alive()` answer from now on
+    KeepAlive(bool),
+    /// the handler requests an outbound stream on its next poll
+    Open,
+    /// the muxer (remote) stops / resumes granting outbound streams
+    HoldOutbound(bool),
+    /// the remote opens a stream towards us (it stays silent: negotiation pending)
+    RemoteOpen,
+    /// the remote completes multistream-select on its k-th silent stream end
+    RemoteAnswer(u8),
+    /// the remote drops its k-th silent stream end (negotiation fails on our side)
+    RemoteReset(u8),
+    /// the k-th held stream is dropped (by the application: the connection is not woken)
+    DropStream(u8),
+    /// `ignore_for_keep_alive` on the k-th held stream
+    Ignore(u8),
+    /// real sleep (Timed mode only), polling the connection whenever it is woken
+    Sleep(u8),
+}
+
+#[derive(Clone, Debug, Serialize, Deserialize, PartialEq, Eq)]
+pub struct Case {
+    /// (operation, poll the connection to quiescence afterwards)
+    pub ops: Vec<(Op, bool)>,
+    /// make everything idle at the end (otherwise the final state is whatever the ops left)
+    pub wind_down: bool,
+}
+
+#[derive(Clone, Copy, PartialEq, Eq, Debug)]
+enum Mode {
+    Asap,
+    Armed,
+    Timed,
+}
+
+impl Mode {
+    fn timeout(self) -> Duration {
+        match self {
+            Mode::Asap => Duration::ZERO,
+            Mode::Armed => HOUR,
+            Mode::Timed => TIMED,
+        }
+    }
+}
+
+// ---------------------------------------------------------------------------------------------
+// back-ends
+
+struct Flag(AtomicBool);
+impl ArcWake for Flag {
+    fn wake_by_ref(a: &Arc<Self>) {
+        a.0.store(true, Ordering::SeqCst);
+    }
+}
+
+enum Backend {
+    Direct { conn: Option<Conn<H10>>, flag: Arc<Flag> },
+    World { w: Box<World<B10>>, seen: usize },
+}
+
+enum Pumped {
+    Open { quiescent: bool },
+    ClosedIdle,
+    ClosedOther(String),
+}
+
+impl Backend {
+    fn woken(&self) -> bool {
+        match self {
+            Backend::Direct { flag, .. } => flag.0.load(Ordering::SeqCst),
+            Backend::World { w, .. } => !w.exec.runnable().is_empty() || w.woken(0),
+        }
+    }
+
+    /// Poll the connection until nothing is woken any more. `force` polls it even when not woken.
+    fn pump(&mut self, force: bool) -> Pumped {
+        match self {
+            Backend::Direct { conn, flag } => {
+                let Some(c) = conn.as_mut() else { return Pumped::Open { quiescent: true } };
+                if !force && !flag.0.load(Ordering::SeqCst) {
+                    return Pumped::Open { quiescent: true };
+                }
+                let w = waker(flag.clone());
+                let mut cx = Context::from_waker(&w);
+                for _ in 0..256 {
+                    flag.0.store(false, Ordering::SeqCst);
+                    match c.poll(&mut cx) {
+                        ConnPoll::Pending => {
+                            if !flag.0.load(Ordering::SeqCst) {
+                                return Pumped::Open { quiescent: true };
+                            }
+                        }
+                        ConnPoll::Closed(ConnectionError::KeepAliveTimeout) => {
+                            *conn = None;
+                            return Pumped::ClosedIdle;
+                        }
+                        ConnPoll::Closed(e) => {
+                            *conn = None;
+                            return Pumped::ClosedOther(e.to_string());
+                        }
+                        ConnPoll::Handler(v) => match v {},
+                        ConnPoll::AddressChange(_) => {}
+                    }
+                }
+                Pumped::Open { quiescent: false }
+            }
+            Backend::World { w, seen } => {
+                if force {
+                    for id in w.exec.alive() {
+                        w.exec.poll_task(id);
+                    }
+                }
+                let quiescent = w.settle(200, &mut |_, _, _| {});
+                let evs = &w.nodes[0].events;
+                let mut out = Pumped::Open { quiescent };
+                for e in &evs[*seen..] {
+                    if let Ev::Closed { cause, .. } = e {
+                        out = match cause.as_deref() {
+                            Some("KeepAliveTimeout") => Pumped::ClosedIdle,
+                            other => Pumped::ClosedOther(format!("{other:?}")),
+                        };
+                    }
+                }
+                *seen = evs.len();
+                out
+            }
+        }
+    }
+
+    fn view(&self) -> Option<(ShutdownView, libp2p_swarm::verif::ConnCounts)> {
+        match self {
+            Backend::Direct { conn: Some(c), .. } => Some((c.shutdown(), c.counts())),
+            _ => None,
+        }
+    }
+}
+
+// ---------------------------------------------------------------------------------------------
+// interpreter
+
+type RemFut = Pin<Box<dyn Future<Output = Result<Box<dyn std::any::Any>, String>>>>;
+
+enum Rem {
+    /// the remote holds its end and says nothing
+    Silent(Duplex),
+    /// negotiation completed; the negotiated stream is kept open
+    Done(#[allow(dead_code)] Box<dyn std::any::Any>),
+    /// the remote is in the middle of answering
+    Answering,
+    Reset,
+}
+
+struct RemEnd {
+    st: Rem,
+    /// we opened it (the remote is the multistream listener)
+    ours: bool,
+}
+
+struct Run {
+    be: Backend,
+    sh: Sh,
+    ctl: MuxCtl,
+    mode: Mode,
+    rem: Vec<RemEnd>,
+    remote_opened: u32,
+    idle_since: Option<Instant>,
+    prev_busy: bool,
+    flips: u32,
+    reasons: Vec<&'static str>,
+    closed: bool,
+    survived_busy_wait: bool,
+    verdict: Option<Outcome>,
+}
+
+#[derive(Debug, Clone, Copy, Default, Serialize)]
+struct Model {
+    keep_alive: bool,
+    active: usize,
+    neg_in: i64,
+    neg_out: i64,
+    req_out: i64,
+}
+
+impl Model {
+    fn reason(&self) -> Option<&'static str> {
+        if self.keep_alive {
+            Some("keep-alive")
+        } else if self.active > 0 {
+            Some("active-stream")
+        } else if self.neg_in > 0 {
+            Some("negotiating-inbound")
+        } else if self.neg_out > 0 {
+            Some("negotiating-outbound")
+        } else if self.req_out > 0 {
+            Some("outbound-requested")
+        } else {
+            None
+        }
+    }
+    fn all_reasons(&self) -> Vec<&'static str> {
+        let mut v = vec![];
+        if self.keep_alive {
+            v.push("keep-alive");
+        }
+        if self.active > 0 {
+            v.push("active-stream");
+        }
+        if self.neg_in > 0 {
+            v.push("negotiating-inbound");
+        }
+        if self.neg_out > 0 {
+            v.push("negotiating-outbound");
+        }
+        if self.req_out > 0 {
+            v.push("outbound-requested");
+        }
+        v
+    }
+}
+
+impl Run {
+    fn model(&self) -> Model {
+        let g = self.sh.lock().unwrap();
+        let (accepted_in, opened_out) = self.ctl.with(|s| (s.accepted_in as i64, s.opened_out as i64));
+        // inbound ends are accepted by the connection in the order the remote opened them
+        let reset_accepted = self.rem.iter().filter(|r| !r.ours).take(accepted_in as usize).filter(|r| matches!(r.st, Rem::Reset)).count() as i64;
+        Model {
+            keep_alive: g.keep_alive,
+            active: g.streams.iter().filter(|h| !h.ignored).count(),
+            neg_in: accepted_in - g.in_ok as i64 - g.in_err as i64 - reset_accepted,
+            neg_out: opened_out - g.out_ok as i64 - g.out_err as i64,
+            req_out: g.requested as i64 - opened_out,
+        }
+    }
+
+    fn fail(&mut self, sig: &str, detail: serde_json::Value) {
+        if self.verdict.is_none() {
+            self.verdict = Some(Outcome::fail(sig, detail));
+        }
+    }
+
+    fn collect_outbound_ends(&mut self) {
+        for d in self.ctl.take_peer_inbound() {
+            self.rem.push(RemEnd { st: Rem::Silent(d), ours: true });
+        }
+    }
+
+    /// Poll the connection and judge what happened. `t0` must be taken before anything that the
+    /// connection could observe in this poll.
+    fn pump(&mut self, force: bool) {
+        if self.closed || self.verdict.is_some() {
+            return;
+        }
+        let t0 = Instant::now();
+        let p = self.be.pump(force);
+        let now = Instant::now();
+        self.collect_outbound_ends();
+        let m = self.model();
+        let busy = m.reason();
+        match p {
+            Pumped::ClosedOther(e) => {
+                self.closed = true;
+                self.verdict = Some(Outcome::Inconclusive(format!("connection closed for another reason: {e}")));
+            }
+            Pumped::ClosedIdle => {
+                self.closed = true;
+                if let Some(r) = busy {
+                    self.fail(&format!("C10:closed-for-idleness-while-busy:{r}"), json!({"model": m, "mode": format!("{:?}", self.mode)}));
+                    return;
+                }
+                match self.mode {
+                    Mode::Asap => {}
+                    Mode::Armed => self.fail("C10:closed-before-idle-timeout", json!({"idle_timeout_s": 3600, "model": m})),
+                    Mode::Timed => {
+                        let since = self.idle_since.unwrap_or(t0);
+                        let el = now.duration_since(since);
+                        if el < TIMED {
+                            self.fail(
+                                "C10:closed-before-idle-timeout",
+                                json!({"idle_timeout_us": TIMED.as_micros() as u64, "elapsed_since_idle_us_upper_bound": el.as_micros() as u64, "idle_seen_in_an_earlier_poll": self.idle_since.is_some()}),
+                            );
+                        }
+                    }
+                }
+            }
+            Pumped::Open { quiescent } => {
+                if !quiescent {
+                    self.verdict = Some(Outcome::Inconclusive("connection did not become quiescent within the poll bound".into()));
+                    return;
+                }
+                let view = self.be.view();
+                match self.mode {
+                    Mode::Asap => {
+                        if busy.is_none() {
+                            self.fail("C10:idle-but-not-closed-with-zero-timeout", json!({"model": m, "hook_view": view.map(|v| format!("{v:?}"))}));
+                            return;
+                        }
+                    }
+                    Mode::Armed => {
+                        if let Some((sv, _)) = view {
+                            if busy.is_some() && sv != ShutdownView::None {
+                                self.fail(&format!("C10:shutdown-timer-kept-while-busy:{}", busy.unwrap()), json!({"model": m, "shutdown": format!("{sv:?}")}));
+                                return;
+                            }
+                            if busy.is_none() && sv != ShutdownView::Later {
+                                self.fail("C10:idle-without-shutdown-timer", json!({"model": m, "shutdown": format!("{sv:?}")}));
+                                return;
+                            }
+                        }
+                    }
+                    Mode::Timed => {}
+                }
+                // harness self-check (Direct only): the model counts what the connection counts
+                // (a negotiating stream already holds a clone of the connection's active-stream counter)
+                if let Some((_, c)) = view {
+                    let same = c.negotiating_in as i64 == m.neg_in && c.negotiating_out as i64 == m.neg_out && c.requested_substreams as i64 == m.req_out && c.has_active_streams == (m.active > 0 || m.neg_in > 0 || m.neg_out > 0);
+                    if !same {
+                        self.verdict = Some(Outcome::Inconclusive(format!("harness model {m:?} disagrees with the connection's counts {c:?}")));
+                        return;
+                    }
+                }
+                for r in m.all_reasons() {
+                    if !self.reasons.contains(&r) {
+                        self.reasons.push(r);
+                    }
+                }
+                match busy {
+                    Some(_) => {
+                        if !self.prev_busy {
+                            self.flips += 1; // busy -> idle -> busy completed
+                        }
+                        self.prev_busy = true;
+                        self.idle_since = None;
+                    }
+                    None => {
+                        self.prev_busy = false;
+                        if self.idle_since.is_none() {
+                            self.idle_since = Some(t0);
+                        }
+                    }
+                }
+            }
+        }
+    }
+
+    /// Real wait of at least `d`, polling the connection whenever something woke it.
+    fn wait(&mut self, d: Duration, stop_when_closed: bool) {
+        let end = Instant::now() + d;
+        loop {
+            if self.verdict.is_some() || (self.closed && stop_when_closed) {
+                return;
+            }
+            if !self.closed && self.be.woken() {
+                self.pump(false);
+                continue;
+            }
+            let now = Instant::now();
+            if now >= end {
+                return;
+            }
+            std::thread::sleep((end - now).min(Duration::from_millis(1)));
+        }
+    }
+
+    fn silent(&self) -> Vec<usize> {
+        self.rem.iter().enumerate().filter(|(_, r)| matches!(r.st, Rem::Silent(_))).map(|(i, _)| i).collect()
+    }
+
+    fn remote_answer(&mut self, idx: usize) {
+        let Rem::Silent(d) = std::mem::replace(&mut self.rem[idx].st, Rem::Answering) else { return };
+        let mut fut: RemFut = if self.rem[idx].ours {
+            Box::pin(async move { listener_select_proto(d, vec![PROTO]).await.map(|(_, s)| Box::new(s) as Box<dyn std::any::Any>).map_err(|e| e.to_string()) })
+        } else {
+            Box::pin(async move { dialer_select_proto(d, vec![PROTO], Version::V1).await.map(|(_, s)| Box::new(s) as Box<dyn std::any::Any>).map_err(|e| e.to_string()) })
+        };
+        let w = futures::task::noop_waker();
+        let mut cx = Context::from_waker(&w);
+        for _ in 0..64 {
+            if let Poll::Ready(r) = fut.as_mut().poll(&mut cx) {
+                match r {
+                    Ok(s) => self.rem[idx].st = Rem::Done(s),
+                    Err(_) => self.rem[idx].st = Rem::Reset,
+                }
+                // let the connection see the last message
+                self.pump(true);
+                return;
+            }
+            self.pump(true);
+            if self.closed || self.verdict.is_some() {
+                return;
+            }
+        }
+        // the connection never took the stream (e.g. still queued in the muxer): the remote gives up
+        drop(fut);
+        self.rem[idx].st = Rem::Reset;
+        self.pump(true);
+    }
+
+    fn exec(&mut self, op: &Op, then_poll: bool) {
+        match op {
+            Op::KeepAlive(b) => self.sh.lock().unwrap().keep_alive = *b,
+            Op::Open => {
+                let w = {
+                    let mut g = self.sh.lock().unwrap();
+                    g.want_open += 1;
+                    g.waker.take()
+                };
+                if let Some(w) = w {
+                    w.wake();
+                }
+            }
+            Op::HoldOutbound(b) => self.ctl.hold_outbound(*b),
+            Op::RemoteOpen => {
+                if self.remote_opened < MAX_REMOTE_OPEN {
+                    self.remote_opened += 1;
+                    let d = self.ctl.remote_open();
+                    self.rem.push(RemEnd { st: Rem::Silent(d), ours: false });
+                }
+            }
+            Op::RemoteAnswer(k) => {
+                let s = self.silent();
+                if !s.is_empty() {
+                    self.remote_answer(s[vcore::pick(*k as u16, s.len())]);
+                }
+            }
+            Op::RemoteReset(k) => {
+                let s = self.silent();
+                if !s.is_empty() {
+                    self.rem[s[vcore::pick(*k as u16, s.len())]].st = Rem::Reset;
+                }
+            }
+            Op::DropStream(k) => {
+                let mut g = self.sh.lock().unwrap();
+                if !g.streams.is_empty() {
+                    let i = vcore::pick(*k as u16, g.streams.len());
+                    let h = g.streams.remove(i);
+                    drop(g);
+                    drop(h);
+                }
+            }
+            Op::Ignore(k) => {
+                let mut g = self.sh.lock().unwrap();
+                if !g.streams.is_empty() {
+                    let i = vcore::pick(*k as u16, g.streams.len());
+                    g.streams[i].s.ignore_for_keep_alive();
+                    g.streams[i].ignored = true;
+                }
+            }
+            Op::Sleep(ms) => {
+                if self.mode == Mode::Timed {
+                    self.wait(Duration::from_millis(*ms as u64), true);
+                }
+            }
+        }
+        if then_poll {
+            self.pump(true);
+        }
+    }
+
+    /// Everything that keeps the connection busy goes away.
+    fn wind_down(&mut self) {
+        for _ in 0..6 {
+            if self.closed || self.verdict.is_some() {
+                return;
+            }
+            {
+                let mut g = self.sh.lock().unwrap();
+                g.keep_alive = false;
+                g.want_open = 0;
+                let s: Vec<Held> = g.streams.drain(..).collect();
+                drop(g);
+                drop(s);
+            }
+            self.ctl.hold_outbound(false);
+            for r in self.rem.iter_mut() {
+                if matches!(r.st, Rem::Silent(_)) {
+                    r.st = Rem::Reset;
+                }
+            }
+            self.pump(true);
+            if self.closed || self.verdict.is_some() {
+                return;
+            }
+            if self.model().reason().is_none() && self.silent().is_empty() {
+                return;
+            }
+        }
+    }
+}
+
+fn start(mode: Mode, world: bool) -> Result<Run, Outcome> {
+    let sh: Sh = Arc::new(Mutex::new(Shared { keep_alive: true, ..Default::default() }));
+    let (be, ctl) = if world {
+        let shc = sh.clone();
+        let mut w: World<B10> = World::new(&[gen::peer(0)], move |_, _| B10 { sh: shc.clone() }, |c| c.with_idle_connection_timeout(mode.timeout()));
+        let addr = Multiaddr::empty().with(Protocol::Memory(4410));
+        if w.dial(0, DialOpts::unknown_peer_id().address(addr).build()).is_err() {
+            return Err(Outcome::Inconclusive("dial refused".into()));
+        }
+        w.settle(200, &mut |_, _, _| {});
+        let Some(&d) = w.open_dials(0).first() else { return Err(Outcome::Inconclusive("no transport dial".into())) };
+        let Some(l) = w.resolve_ok(0, d, gen::peer(5), None) else { return Err(Outcome::Inconclusive("dial could not be resolved".into())) };
+        w.settle(200, &mut |_, _, _| {});
+        if !w.nodes[0].events.iter().any(|e| matches!(e, Ev::Established { .. })) {
+            return Err(Outcome::Inconclusive("connection not established".into()));
+        }
+        let ctl = w.links[l].a.clone();
+        let seen = w.nodes[0].events.len();
+        (Backend::World { w: Box::new(w), seen }, ctl)
+    } else {
+        let ((ma, ca), (mb, _cb)): ((SimMuxer, MuxCtl), (SimMuxer, MuxCtl)) = mux_pair();
+        // the remote muxer object must stay alive (dropping it is a remote close): parked per thread
+        let conn = Conn::new(boxed(ma), H10 { sh: sh.clone() }, 8, mode.timeout());
+        REMOTE_MUXERS.with(|r| r.borrow_mut().push(mb));
+        (Backend::Direct { conn: Some(conn), flag: Arc::new(Flag(AtomicBool::new(true))) }, ca)
+    };
+    Ok(Run { be, sh, ctl, mode, rem: vec![], remote_opened: 0, idle_since: None, prev_busy: true, flips: 0, reasons: vec![], closed: false, survived_busy_wait: false, verdict: None })
+}
+
+thread_local! {
+    static REMOTE_MUXERS: std::cell::RefCell<Vec<SimMuxer>> = const { std::cell::RefCell::new(Vec::new()) };
+}
+
+fn run_case(case: &Case, mode: Mode, world: bool) -> Outcome {
+    let out = run_case_inner(case, mode, world);
+    REMOTE_MUXERS.with(|r| r.borrow_mut().clear());
+    release_phantoms();
+    out
+}
+
+fn run_case_inner(case: &Case, mode: Mode, world: bool) -> Outcome {
+    let mut r = match start(mode, world) {
+        Ok(r) => r,
+        Err(o) => return o,
+    };
+    r.pump(true);
+    for (op, then_poll) in &case.ops {
+        if r.closed || r.verdict.is_some() {
+            break;
+        }
+        r.exec(op, *then_poll);
+    }
+    if !r.closed && r.verdict.is_none() {
+        // the connection sees the final state of the script
+        r.pump(true);
+    }
+    let mut deadline_missed = false;
+    if !r.closed && r.verdict.is_none() {
+        if case.wind_down {
+            r.wind_down();
+        }
+        if mode == Mode::Timed && !r.closed && r.verdict.is_none() {
+            if r.model().reason().is_some() {
+                // a busy connection outlives the idle timeout
+                r.wait(TIMED + Duration::from_millis(15), true);
+                if !r.closed && r.verdict.is_none() {
+                    r.survived_busy_wait = true;
+                }
+            } else {
+                r.wait(TIMED + Duration::from_millis(400), true);
+                if !r.closed {
+                    deadline_missed = true;
+                }
+            }
+        }
+    }
+    if let Some(v) = r.verdict.take() {
+        return v;
+    }
+    if deadline_missed {
+        return Outcome::Inconclusive("idle connection not closed within idle timeout + 400 ms (deadline miss, not a violation)".into());
+    }
+    let mut labels: Vec<&'static str> = r.reasons.clone();
+    if r.closed {
+        labels.push("closed_keep_alive_timeout");
+    }
+    if r.flips > 0 {
+        labels.push("busy_idle_busy_flip");
+    }
+    if r.survived_busy_wait {
+        labels.push("busy_survived_timeout");
+    }
+    let nontrivial = match mode {
+        // with a zero timeout the first idle instant is the last: flips are impossible by definition
+        Mode::Asap => r.closed && r.reasons.len() >= 2,
+        Mode::Armed => r.flips >= 1,
+        Mode::Timed => r.flips >= 1 && (r.closed || r.survived_busy_wait),
+    };
+    Outcome::pass_l(nontrivial, labels)
+}
+
+// ---------------------------------------------------------------------------------------------
+// generators
+
+fn op_strategy(timed: bool) -> BoxedStrategy<Op> {
+    let base = prop_oneof![
+        5 => Just(Op::KeepAlive(false)),
+        1 => Just(Op::KeepAlive(true)),
+        4 => Just(Op::Open),
+        2 => proptest::bool::weighted(0.7).prop_map(Op::HoldOutbound),
+        4 => Just(Op::RemoteOpen),
+        5 => any::<u8>().prop_map(Op::RemoteAnswer),
+        2 => any::<u8>().prop_map(Op::RemoteReset),
+        5 => any::<u8>().prop_map(Op::DropStream),
+        2 => any::<u8>().prop_map(Op::Ignore),
+    ];
+    if timed {
+        prop_oneof![3 => base, 1 => (0u8..32).prop_map(Op::Sleep)].boxed()
+    } else {
+        base.boxed()
+    }
+}
+
+fn case_strategy(timed: bool, max_ops: usize) -> BoxedStrategy<Case> {
+    (proptest::collection::vec((op_strategy(timed), proptest::bool::weighted(0.8)), 1..=max_ops), any::<bool>()).prop_map(|(ops, wind_down)| Case { ops, wind_down }).boxed()
+}
+
+pub fn run(ctx: &mut Ctx) {
+    ctx.assume("muxer and remote peer are simulated (simswarm::net); stream negotiation is the real multistream-select on both ends; substream upgrade timeouts are 1 h and never fire");
+    ctx.assume("'busy' is judged at the end of a poll of the connection (where the connection itself decides): a keep-alive flag raised and lowered again between two polls was never asked of the connection");
+    ctx.assume("Timed sub-checks use the wall clock one-sidedly: harness timestamps are taken before the poll that could arm the timer and after the poll that reported the close; futures_timer::Delay is trusted not to fire early");
+    ctx.assume("Direct sub-checks drive the real Connection through hook swarm::verif::Conn (read accessors for the planned shutdown and the stream counts; no logic re-implemented)");
+    let ops_rule = "programs of 1..14 ops {keep-alive on/off, handler opens outbound stream, muxer holds/grants outbound streams, remote opens stream, remote completes / abandons negotiation, held stream dropped, ignore_for_keep_alive} each optionally followed by a poll-to-quiescence, optional final wind-down to idle";
+    ctx.check::<Case>(
+        "direct-asap",
+        &format!("real Connection polled by the harness, idle timeout 0; {ops_rule}; oracle after every poll: closed with KeepAliveTimeout iff no busy condition holds. non-trivial = closed after >=2 different busy conditions were observed; distinct by case hash"),
+        ctx.n(20_000, 500_000),
+        &|| case_strategy(false, 14),
+        &|c| run_case(c, Mode::Asap, false),
+    );
+    ctx.check::<Case>(
+        "direct-armed",
+        &format!("real Connection, idle timeout 1 h; {ops_rule}; oracle after every poll: never closed; planned shutdown is None while any busy condition holds and Later while idle. non-trivial = >=1 busy->idle->busy flip; distinct by case hash"),
+        ctx.n(20_000, 500_000),
+        &|| case_strategy(false, 14),
+        &|c| run_case(c, Mode::Armed, false),
+    );
+    ctx.check::<Case>(
+        "world-asap",
+        &format!("real Swarm in the simulated world, idle_connection_timeout 0; {ops_rule}; oracle after every settle: SwarmEvent::ConnectionClosed{{cause: KeepAliveTimeout}} iff no busy condition holds. non-trivial = closed after >=2 different busy conditions; distinct by case hash"),
+        ctx.n(6000, 150_000),
+        &|| case_strategy(false, 14),
+        &|c| run_case(c, Mode::Asap, true),
+    );
+    ctx.check::<Case>(
+        "direct-timed",
+        &format!("real Connection, idle timeout 25 ms, wall clock; {ops_rule} plus real sleeps 0..31 ms during which the connection is polled when woken; final wait: busy => must survive timeout+15 ms, idle => closes (miss within +400 ms = inconclusive). oracle: a close implies no busy condition and >= 25 ms since the timestamp taken before the poll that first saw it idle. non-trivial = >=1 busy->idle->busy flip and (closed by timeout or survived the final busy wait); distinct by case hash"),
+        ctx.n(640, 12_000),
+        &|| case_strategy(true, 10),
+        &|c| run_case(c, Mode::Timed, false),
+    );
+    ctx.check::<Case>(
+        "world-timed",
+        &format!("real Swarm in the simulated world, idle_connection_timeout 25 ms, wall clock; {ops_rule} plus real sleeps; same one-sided oracle on SwarmEvent::ConnectionClosed{{cause: KeepAliveTimeout}}. non-trivial as direct-timed; distinct by case hash"),
+        ctx.n(640, 12_000),
+        &|| case_strategy(true, 10),
+        &|c| run_case(c, Mode::Timed, true),
+    );
+}
